@@ -11,19 +11,20 @@
   Ghost state (not in the Python): `escaped` = addresses of arrays the caller holds (returned by
   an accessor, or created by the caller and passed in); `imported` = addresses that the caller
   holds AND that were stored by reference into `_current` on the caller's explicit request
-  (`set_current/update_current(copy=False)`, the "_current" section of `update_from_dict`);
-  `importedH` = the same for `_history` (only the "_history" section of `update_from_dict`).
+  (`set_current/update_current(copy=False)` — the only opt-in left: nothing else stores a caller's array as is).
 
-  Python methods mirrored (file as of the `fix:` commits fd508f0 / fb52885: `to_dict` copies,
-  `compute_results` returns copies of the cache):
+  Python methods mirrored (file as of the `fix:` commits fd508f0 / fb52885 / 1c48c7d: `to_dict` copies,
+  `compute_results` returns copies of the cache, `update_from_dict` stores copies of the imported lists and arrays):
     _ensure_copy, get_current, set_current, update_current, get_history, get_last_history,
     commit_current_to_history, compute_results (+ cache, _invalidate_cache), compute_logw_and_logz (as an
     accessor: fresh array, stand-in payload), to_dict,
-    update_from_dict (from_dict = update_from_dict on `init`).
+    update_from_dict (from_dict = `cls(n_dim)` followed by update_from_dict, i.e. update_from_dict on `init`;
+    a second manager living beside the first is not modelled, the harness covers it on the real code).
   Not modelled: array shapes/dtypes (payload is the flattened content; `np.array` of a ragged or
   None-containing list is an unreadable cell), the numerical content of `logw` (a stand-in that reads
-  the same history entries), `n_dim`, the list *containers* handed to `update_from_dict` (only the
-  arrays inside them are shared), `save_state/load_state` (dill round trip = import of fresh arrays).
+  the same history entries), `n_dim`, `save_state/load_state` (dill round trip = import of fresh arrays).
+  The list containers handed to `update_from_dict` need no cells: the method builds fresh lists
+  (`[self._ensure_copy(item) for item in v]`), so the caller's lists are never stored.
 -/
 namespace Model.StateMgr
 
@@ -80,7 +81,6 @@ structure State where
   heap : Heap
   escaped : List Addr
   imported : List Addr      -- ghost: caller-held arrays stored by reference into `_current` at the caller's request
-  importedH : List Addr     -- ghost: caller-held arrays stored by reference into `_history` (`update_from_dict` only)
 
 def State.next (s : State) : Addr := s.heap.length
 
@@ -91,8 +91,7 @@ def init : State :=
     cache := none
     heap := []
     escaped := []
-    imported := []
-    importedH := [] }
+    imported := [] }
 
 def Val.addrs : Val → List Addr
   | .ref a => [a]
@@ -357,13 +356,15 @@ def step (s : State) : Op → State × Res
     let cur' := entries cur      -- `if "_current" in state_dict`: an absent section updates nothing
     let hist' := entries hist
     if !(dictLegal s.escaped cur' && histLegal s.escaped hist') then (s, .err .illegal) else
+    -- caller side: the dictionary it passes (its arrays stay in its hands)
     let rc := resolveDict s.heap s.escaped cur'
     let rh := resolveHist rc.1 rc.2.1 hist'
-    ({ s with heap := rh.1, escaped := rh.2.1,
-              current := updateAll s.current rc.2.2,
-              history := updateAll s.history rh.2.2,
-              imported := dictAddrs rc.2.2 ++ s.imported,
-              importedH := histAddrs rh.2.2 ++ s.importedH,
+    -- `{k: self._ensure_copy(v) …}` then `{k: [self._ensure_copy(item) for item in v] …}`: fresh arrays, fresh lists
+    let cc := copyDict rh.1 rc.2.2
+    let ch := copyHist cc.1 rh.2.2
+    ({ s with heap := ch.1, escaped := rh.2.1,
+              current := updateAll s.current cc.2,
+              history := updateAll s.history ch.2,
               cache := none }, .unit)
   | .scribble a p =>
     if s.escaped.contains a then ({ s with heap := s.heap.set a (some p) }, .unit) else (s, .err .illegal)
